@@ -103,6 +103,10 @@ class ModelCache:
         fn = getattr(self, 'op_' + name)
         return fn(op, now)
 
+    def op_repolicy(self, op, now):
+        self.policy = op['policy']
+        return ('ok', fp(op['policy']))
+
     def op_set(self, op, now):
         key, kid, it = self._find(op['k'])
         vfp, num = self._value(op)
